@@ -187,22 +187,10 @@ package processorqueue
 //@   ensures[allowed-iff-verdict] result0.Name == "allowed" <==> canProcess
 
 // ---------------------------------------------------------------- construction: the processor works with its own configured parameters
-// the value of a configured processor parameter (trusted observers; the extraction helpers live in processors/utils)
-//@ ghost func pStr(m map[string]streamtypes.ProcessorParam, name string) string
-//@ ghost func pInt64(m map[string]streamtypes.ProcessorParam, name string) int64
-//@ ghost func pSeconds(m map[string]streamtypes.ProcessorParam, name string) int64
-//@ extern utils.ExtractStrParam
-//@   params metaData, paramName, out
-//@   modifies *out
-//@   ensures result == nil ==> *out == pStr(metaData, paramName)
-//@ extern utils.ExtractInt64Param
-//@   params metaData, paramName, out
-//@   modifies *out
-//@   ensures result == nil ==> *out == pInt64(metaData, paramName)
-//@ extern utils.ExtractDurationInSecParam
-//@   params metaData, paramName, out
-//@   modifies *out
-//@   ensures result == nil ==> *out == pSeconds(metaData, paramName) * 1000000000
+// the value of a configured processor parameter (the extraction helpers are proved in processors/utils)
+//@ ghost func pStr(m map[string]streamtypes.ProcessorParam, name string) string = m[name].Value.GetString()
+//@ ghost func pInt64(m map[string]streamtypes.ProcessorParam, name string) int64 = m[name].Value.GetInt()
+//@ ghost func pSeconds(m map[string]streamtypes.ProcessorParam, name string) int64 = m[name].Value.GetInt()
 //@ extern utils.ExtractMapOfInt64Param
 //@   params metaData, paramName, out
 //@   modifies mapof(out)
@@ -215,6 +203,7 @@ package processorqueue
 //@   prop C06
 //@   mode seq
 //@   requires p != nil && p.metaData != nil && p.groups != nil
+//@   requires[parameters-carry-values] pvOK(p.metaData.Parameters)
 //@   modifies p.quotaID, p.groupByHeader, p.maxQueueSize, p.maxRedisQueueSize, p.queueTTL, p.logger, mapof(p.groups), now
 //@   ensures[queue-size-is-the-configured-one] result == nil ==> p.maxQueueSize == pInt64(p.metaData.Parameters, "queue_size")
 //@   ensures[ttl-is-the-configured-one] result == nil ==> p.queueTTL == pSeconds(p.metaData.Parameters, "ttl_seconds") * 1000000000
